@@ -175,6 +175,8 @@ def try_resume(image, kind, kw, workdir, continue_run=False):
         from mc.monitors import StdMonitor
 
         mon = StdMonitor() if kind == "std" else runs.InsMonitor()
+        if kind == "ins":
+            mon.rederived = not kw.get("save_log_q", False)  # the table was re-derived in float32 on resume
         errs = []
         try:
             with mon.installed():
